@@ -519,6 +519,7 @@ def gen_plan(ctx: Ctx, stateful: bool = False, mp: bool = False) -> Dict[str, An
         steps = []
         prev = [f"a{li}", f"b{li}"]
         cur_fw = fw
+        used = {fw}
         for d in range(depth):
             name = f"d{li}_{d}"
             if len(prev) >= 2 and rng.random() < 0.6:
@@ -528,7 +529,10 @@ def gen_plan(ctx: Ctx, stateful: bool = False, mp: bool = False) -> Dict[str, An
                 parents = [prev[-1]]
                 expr = [rng.choice(["add", "mul"]), ["col", parents[0]], ["const", rng.randint(1, 3)]]
             if rng.random() < 0.2 and not stateful:
-                cur_fw = rng.choice(switchable[cur_fw] or [cur_fw])
+                # never back to a framework this lineage already used: mloda then re-uses the older cfw object, whose
+                # data lacks the newer columns, and the plan fails even without extenders (not C20's subject)
+                cur_fw = rng.choice([f for f in switchable[cur_fw] if f not in used] or [cur_fw])
+                used.add(cur_fw)
             steps.append({"feature": name, "parents": parents, "expr": expr, "fw": cur_fw})
             prev = [name]
         lineages.append({"root_cols": cols, "root_fw": fw, "steps": steps})
